@@ -76,6 +76,9 @@ pub struct Ctl {
     pub accepted: usize,
     /// at most this many bytes are handed out per read call (None: as many as the caller has room for)
     pub read_chunk: Option<usize>,
+    /// the next read / write fails with an I/O error (connection reset / broken pipe)
+    pub read_error: bool,
+    pub write_error: bool,
     readiness: Option<SetReadiness>,
 }
 
@@ -104,6 +107,17 @@ impl Handle {
         let mut c = (self.0).0.lock().unwrap();
         c.inject.extend(bytes);
         c.eof = true;
+        Handle::wake(&c);
+    }
+    pub fn fail_reads(&self) {
+        let mut c = (self.0).0.lock().unwrap();
+        c.read_error = true;
+        c.eof = true; // makes the stream report readable
+        Handle::wake(&c);
+    }
+    pub fn fail_writes(&self) {
+        let mut c = (self.0).0.lock().unwrap();
+        c.write_error = true;
         Handle::wake(&c);
     }
     pub fn close_socket(&self) {
@@ -227,6 +241,9 @@ impl LiveBroker {
 
 impl Read for LiveBroker {
     fn read(&mut self, buf: &mut [u8]) -> io::Result<usize> {
+        if (self.ctl.0).0.lock().unwrap().read_error {
+            return Err(io::ErrorKind::ConnectionReset.into());
+        }
         let eof = self.pull_injected();
         if self.inbox.is_empty() {
             return if eof { Ok(0) } else { Err(io::ErrorKind::WouldBlock.into()) };
@@ -244,6 +261,9 @@ impl Write for LiveBroker {
     fn write(&mut self, buf: &[u8]) -> io::Result<usize> {
         let take = {
             let mut c = (self.ctl.0).0.lock().unwrap();
+            if c.write_error {
+                return Err(io::ErrorKind::BrokenPipe.into());
+            }
             let mut n = buf.len();
             if let Some(b) = c.budget {
                 if b == 0 {
